@@ -187,6 +187,8 @@ def _run_symex_job(job):
       res['status'] = 'violation'
     elif not ex.exhausted:
       res['status'] = 'timeout'
+  except symex.BudgetExceeded:
+    res['status'] = 'timeout'
   except symex.Unsupported as e:
     res['status'] = 'error'
     res['error'] = 'Unsupported: %s\n%s' % (e, traceback.format_exc()[-2500:])
